@@ -212,6 +212,30 @@ def mp_handoff(tree):
     return calls_unconditionally(sites[0].body, after=assigns_link)
 
 
+def link_assignment_fresh(tree, method):
+    """In CircuitCompositeOperation.<method> (decomposed_operations: the hand-off while listing; extend: the first operations of an
+    unrolled copy) relation-free operations are given a relation link inside a for-loop.  Sub-circuits compare and hash by value
+    (relation link incl. its instance identifier, repetition strategy), so whether every operation receives its OWN link instance
+    decides whether two sibling sub-circuits can become equal (findings F12, F21).
+    True  <- `x.relation_link = replace(<expr>)` inside the loop (dataclasses.replace re-runs the identifier factory);
+    False <- `x.relation_link = <name or attribute>` (one object shared by all of them);  anything else: fail closed."""
+    fn = find_func(find_class(tree, 'CircuitCompositeOperation'), method)
+    loops = [s for s in strip_doc(fn.body) if isinstance(s, ast.For)]
+    if len(loops) != 1:
+        fail(fn, f"{method}: one for-loop expected")
+    assigns = [s for s in ast.walk(fn) if isinstance(s, ast.Assign)
+               and any(isinstance(t, ast.Attribute) and t.attr == 'relation_link' for t in s.targets)]
+    in_loop = [s for s in ast.walk(loops[0]) if s in assigns]
+    if len(assigns) != 1 or len(in_loop) != 1:
+        fail(fn, f"{method}: exactly one assignment of a relation link, inside the loop, expected")
+    v = assigns[0].value
+    if isinstance(v, ast.Call) and isinstance(v.func, ast.Name) and v.func.id == 'replace' and len(v.args) == 1 and not v.keywords:
+        return True
+    if isinstance(v, (ast.Name, ast.Attribute)):
+        return False
+    fail(assigns[0], f"{method}: unrecognised relation-link value `{ast.unparse(v)}`")
+
+
 def mp_set_registry(tree):
     fn = find_func(find_class(tree, 'DurationRegistry'), 'set_registry_at')
 
@@ -624,6 +648,11 @@ def generate(repo):
     # (g)
     out += ["(* (g) MultiRelationLink.reference_node keeps the first of the latest-ending members (strict >) *)",
             f"Definition multi_reference_strict : bool := {cbool(multi_reference_strict(t_op))}.", ""]
+    # (i)
+    out += ["(* (i) do relation-free operations each receive their OWN relation-link instance (dataclasses.replace) at the two places that",
+            "   hand links down?  Sub-circuits are compared by value incl. the link's instance identifier (F12, F21). *)",
+            f"Definition handoff_link_fresh_per_node : bool := {cbool(link_assignment_fresh(t_comp, 'decomposed_operations'))}.",
+            f"Definition extend_link_fresh_per_node : bool := {cbool(link_assignment_fresh(t_comp, 'extend'))}.", ""]
     # (h)
     xattr = pivot_shape(t_tc)
     floor, margin, height, factor = description_constants(t_disp)
